@@ -25,7 +25,7 @@ LEVEL_TEXT = ("The C09 scenario generator (random coastlines, jets with Courant 
               "checked by a python-side index monitor. Evidence reports the closest approach to each array edge that was actually observed.")
 LEVEL_NOTE = "numba's checker does not flag negative indices (they wrap); the shadow monitor covers those. A dying interpreter during a run counts as a violation."
 RULE = ("case = C09-style world/run with boundary-hugging releases. Non-trivial: some kernel call came within one cell of an array edge; distinct by case parameters.")
-MANDATORY = ["second_run_on_same_files_larger_grid", "family_c09", "family_c14", "family_c10", "family_c08", "trilinear_calls", "z2s_kernel_calls", "sample3D_nearest_calls", "within_one_cell_of_edge", "scheme_RK2", "scheme_RK4", "subgrid", "boundscheck_active",
+MANDATORY = ["second_run_on_same_files_larger_grid", "family_c09", "family_c14", "family_c10", "family_c08", "family_lonlat", "trilinear_calls", "z2s_kernel_calls", "sample3D_nearest_calls", "within_one_cell_of_edge", "scheme_RK2", "scheme_RK4", "subgrid", "boundscheck_active",
              "surface_or_bottom_particles", "diffusion_on"]
 ASSUMPTIONS = ["N >= 2 (with a single level no level pair exists)"]
 BOUNDSCHECK = True
@@ -55,6 +55,8 @@ def gen_cases(tier: str, seed: int) -> list[dict[str, Any]]:
     m = 24 if tier == "quick" else 3000
     for i in range(m):
         cases.append(dict(family=["c14", "c10", "c08"][i % 3], seed=seed, idx=i))
+    for i in range(12 if tier == "quick" else 1500):
+        cases.append(dict(family="lonlat", seed=seed, idx=i))
     return cases
 
 
@@ -87,6 +89,31 @@ def run_case(case: dict[str, Any], wd: Path) -> dict[str, Any]:
         b = C10.build(dict(seed=case["seed"], idx=case["idx"]))
         scn, _fwd, _start = C10.scenarios(b)
         case = dict(case, scheme=b["scheme"], diffusion=0.0, subgrid=None, imax=20, jmax=16, N=3, flow="reversed " + b["pattern"]["kind"])
+    elif fam == "lonlat":
+        # release by longitude/latitude, some rows outside the loaded (sub)grid: wherever the conversion puts them, the kernels must stay inside
+        from vmon import world as W  # noqa: PLC0415
+        from vmon.props import C16  # noqa: PLC0415
+        from vmon.scenario import tadd  # noqa: PLC0415
+
+        rng = C.rng_for(case["seed"], 17, case["idx"], 7)
+        imax, jmax = int(rng.integers(14, 22)), int(rng.integers(12, 18))
+        pol = C16.polar_spec(rng, imax, jmax)
+        dt = 600
+        sub = [3, imax - 3, 2, jmax - 2] if case["idx"] % 2 else None
+        i0, i1, j0, j1 = sub or [1, imax - 1, 1, jmax - 1]
+        out = float(rng.choice([0.3, 0.8, 1.7, 4.0]))
+        xc, yc = 0.5 * (i0 + i1), 0.5 * (j0 + j1)
+        P = [(xc, yc), (i0 + 0.7, yc), (i1 - 1.7, j1 - 1.7), (i1 - 1 + out, yc), (xc, j1 - 1 + out), (i0 - out, yc), (xc, j0 - out), (i1 - 1 + out, j1 - 1 + out)]
+        lon, lat = W.polar_lonlat(np.array([p[0] for p in P]), np.array([p[1] for p in P]), pol)
+        ang = float(rng.uniform(0, 2 * np.pi))
+        sp = 0.6 * pol["dx"] / dt
+        scheme = ["RK4", "RK2", "EF"][case["idx"] % 3]
+        scn = dict(world=dict(imax=imax, jmax=jmax, N=3, t0=str(tadd(C.T0, -3600)), frames=[0, 3 * 3600], files=[2], vel=dict(kind="const", u=sp * np.cos(ang), v=sp * np.sin(ang)),
+                              metric=pol, lonlat=pol),
+                   run=dict(start=C.T0, stop=str(tadd(C.T0, 5 * dt)), dt=dt, advection=scheme, subgrid=sub,
+                            release=dict(columns=["release_time", "lon", "lat", "Z"], rows=[[C.T0, float(lon[k]), float(lat[k]), [0.0, 5.0, 60.0][k % 3]] for k in range(len(P))], header=True),
+                            output=dict(period=dt)))
+        case = dict(case, scheme=scheme, diffusion=0.0, subgrid=sub, imax=imax, jmax=jmax, N=3, flow="lon/lat release, rows outside the grid")
     else:
         from vmon.props import C08  # noqa: PLC0415
 
